@@ -28,14 +28,17 @@ type c08Call struct {
 }
 
 type c08Case struct {
-	Types    []*core.StructSpec `json:"types"`     // fresh types of this round
-	Named    int                `json:"named"`     // how many unused named types join the batch
-	Regs     [][]c08Call        `json:"regs"`      // per registrar goroutine: calls, all on fresh types
-	Steady   int                `json:"steady"`    // number of steady-state goroutines
-	SteadyN  int                `json:"steadyn"`   // calls per steady goroutine
-	Procs    int                `json:"procs"`     // GOMAXPROCS for the round
-	Yield    []int              `json:"yield"`     // harness-side Gosched pattern
+	Types   []*core.StructSpec `json:"types"`   // fresh types of this round
+	Named   int                `json:"named"`   // how many unused named types join the batch
+	Regs    [][]c08Call        `json:"regs"`    // per registrar goroutine: calls, all on fresh types
+	Steady  int                `json:"steady"`  // number of steady-state goroutines
+	SteadyN int                `json:"steadyn"` // calls per steady goroutine
+	Procs   int                `json:"procs"`   // GOMAXPROCS for the round
+	Yield   []int              `json:"yield"`   // harness-side Gosched pattern
+	Spin    []int              `json:"spin"`    // per registrar: busy iterations before its first call (staggered arrival)
 }
+
+var spinSink atomic.Int64
 
 var (
 	c08Round     int
@@ -64,11 +67,13 @@ func genC08(t *rapid.T) c08Case {
 	for i := 0; i < nt; i++ {
 		s := core.GenStruct(t, cfg)
 		// a field name no earlier type has: the reflect type is new, so this is a first use
-		s.Fields = append(s.Fields, &core.FieldSpec{Name: fmt.Sprintf("Fresh_%d_%d", salt, i), ID: 20000, Type: &core.TypeSpec{Kind: core.KI32}})
+		// ... and a large field id: building the descriptor allocates and fills an index of that
+		// size, which stretches the registration window other goroutines can fall into
+		s.Fields = append(s.Fields, &core.FieldSpec{Name: fmt.Sprintf("Fresh_%d_%d", salt, i), ID: uint16(6000 + rapid.IntRange(0, 3000).Draw(t, "bigid")), Type: &core.TypeSpec{Kind: core.KI32}})
 		c.Types = append(c.Types, s)
 	}
 	// wrappers nesting fresh types: first met nested or on their own, depending on the race
-	nw := rapid.IntRange(1, 3).Draw(t, "nwrap")
+	nw := rapid.IntRange(1, 4).Draw(t, "nwrap")
 	for i := 0; i < nw; i++ {
 		a := c.Types[rapid.IntRange(0, len(c.Types)-1).Draw(t, "wa")]
 		b := c.Types[rapid.IntRange(0, len(c.Types)-1).Draw(t, "wb")]
@@ -77,6 +82,14 @@ func genC08(t *rapid.T) c08Case {
 			{Name: "WrapB", ID: 2, Type: &core.TypeSpec{Kind: core.KList, Elem: &core.TypeSpec{Kind: core.KStruct, Struct: b, Ptr: true}}},
 			{Name: "WrapM", ID: 3, Type: &core.TypeSpec{Kind: core.KMap, Key: &core.TypeSpec{Kind: core.KString}, Elem: &core.TypeSpec{Kind: core.KStruct, Struct: a, Ptr: false}}},
 		}}
+		// every other fresh type too, behind the first ones: the wrapper's descriptor is complete
+		// only after all of them are
+		for j, o := range c.Types {
+			if j < 6 {
+				w.Fields = append(w.Fields, &core.FieldSpec{Name: fmt.Sprintf("WrapN%d", j), ID: uint16(10 + j), Req: core.Optional,
+					Type: &core.TypeSpec{Kind: core.KStruct, Struct: o, Ptr: true}})
+			}
+		}
 		c.Types = append(c.Types, w)
 	}
 	c.Named = rapid.IntRange(0, 5).Draw(t, "named")
@@ -110,6 +123,7 @@ func genC08(t *rapid.T) c08Case {
 	c.SteadyN = rapid.IntRange(5, 40).Draw(t, "steadyn")
 	c.Procs = rapid.SampledFrom([]int{2, 4, 16}).Draw(t, "procs")
 	c.Yield = rapid.SliceOfN(rapid.IntRange(0, 3), 8, 8).Draw(t, "yield")
+	c.Spin = rapid.SliceOfN(rapid.IntRange(0, 60000), 16, 16).Draw(t, "spin")
 	return c
 }
 
@@ -258,6 +272,13 @@ func (r *c08Runner) run(c c08Case) *Failure {
 		go func(g int) {
 			defer wg.Done()
 			<-start
+			if len(c.Spin) > 0 {
+				x := 0
+				for j := 0; j < c.Spin[g%len(c.Spin)]; j++ {
+					x += j
+				}
+				spinSink.Store(int64(x))
+			}
 			for k := range regs[g] {
 				for y := 0; y < c.Yield[(g+k)%len(c.Yield)]; y++ {
 					runtime.Gosched()
